@@ -23,8 +23,10 @@ CHECKS = {
             'redefinition/deletion histories of the Python-side wrapper vs. a name->binding model',
             'Data round trip for a closed value universe; every signature over (klong, x, y, z) x argument tuples x '
             'call forms with an instrumented call log (exactly one call, positional arguments, result = return value); '
-            'BFS over histories of redefine/delete/re-read/call for wrappers obtained as klong[name], compared with '
-            'the Klong-level call; .pyf/.py imports.',
+            'BFS over histories of redefine/delete/re-read/call for wrappers obtained as klong[name] (functions, a function that '
+            'raises KeyError, projections; calls are history steps of their own), compared with the Klong-level call incl. '
+            'how often the body runs; callable kinds: function, shared functools.wraps decorator, bound method, __call__ object, '
+            'partial; .pyf/.py imports.',
             'Built by a sub-agent from DESIGN.md; state merging on (binding, captured binding per wrapper). Known '
             'finding: Python list / symbol value in function position.',
             'DESIGN.md §3 C09'),
@@ -84,7 +86,9 @@ CHECKS = {
             'All histories of set/get/get-missing/unload/reopen up to the stated depth on flat and nested keys, per '
             'cache-limit class (fits exactly one entry, exactly two, default), run on the real stores through the '
             'Klong-level forms; results compared with a dict model and the byte accounting / LRU / disk invariants are '
-            'evaluated on the real cache object after every operation. Same for the table store (documented merge).',
+            'evaluated on the real cache object after every operation; keys incl. an alias spelling of a nested key and keys that '
+            'collide with a directory / a file of other keys (their set must fail and change nothing). Same for the table '
+            'store (documented merge incl. six rows on equal indexes, read back after every set).',
             'memfs replaces the directory (module-level open/os of klongpy.db.file_cache); sequential use only '
             '(concurrency is C18); merging on (model, entries, LRU order, byte total).',
             'DESIGN.md §3 C16'),
@@ -93,8 +97,10 @@ CHECKS = {
             'a POSIX-style persistence model, each recovered with a fresh store',
             'For every history of up to 2/3 sets the real set path is traced at kernel-call level (real BufferedWriter '
             'over memfs); every crash point and every allowed loss of unsynced data is materialised and read back '
-            'through a fresh KeyValueStorage; acknowledged sets must read back, other keys must be unharmed. The memfs '
-            'trace is checked against strace of the same history on a real directory.',
+            'through a fresh KeyValueStorage; acknowledged sets must read back, other keys must be unharmed. Two-epoch '
+            'histories: a process killed inside a set at every trace position (the page cache survives), a new process does '
+            '[get,] set, power loss at every position of its trace. The memfs trace is checked against strace of the same '
+            'history on a real directory.',
             'The persistence model is a model of POSIX, not of one kernel; root directory assumed durable; '
             'kill-at-boundary runs (thorough) keep the page cache.',
             'DESIGN.md §3 C17, Appendix D'),
@@ -170,7 +176,8 @@ CHECKS['C03'] = (
     'recursion) and compared with the textually substituted body; every fill plan of dyad/triad projections in any '
     'hole order; a raising callable at every sub-expression position inside 1-3 nested calls (variables, context depth '
     'and follow-up programs must be as if the call had not happened); conditionals over the truth universe with '
-    'logging branches.',
+    'logging branches; recursion through .f in functions that declare locals; assignments to x, y, z while globals of '
+    'those names exist; projection arguments rebound between the steps.',
     'The oracle is the interpreter itself on the substituted text (no Klong semantics in the harness). The complete '
     'product of 3-node bodies x all tuples x all forms is too large; the layers enumerated (each completely) are '
     'listed in coverage.bounds. Built by a sub-agent from DESIGN.md.',
@@ -193,7 +200,8 @@ CHECKS['C06'] = (
     'complete product enumeration of differentiable expression trees x grid points x gradient forms x backends vs. '
     'forward-mode dual numbers (exact derivatives)',
     'Every expression tree up to the node bound over the differentiable operations (arithmetic, powers, negation, '
-    'reductions, indexing, each, backend math functions), at every grid point of its smooth domain, through f:>p, '
+    'reductions, indexing, each, backend math functions, constant^tree, scalar^scalar, identity / reverse / drop / take as '
+    'vector functions), at every grid point of its smooth domain (plus 2x2 matrix points in both memory layouts), through f:>p, '
     'p\u2207f, (\u2207f)(p), p\u2202g, .jacobian, loss:>[w b], [w b]\u2202g on numpy (numeric) and torch (autograd); '
     'each answer within the stated tolerance of the dual-number derivative and both backends within the looser one.',
     'Nothing is decided between grid points; points where the inherent error of the method exceeds the tolerance '
